@@ -417,7 +417,15 @@ func normalise(roots []*packages.Package, inv map[string]string, base map[string
 	overlay := map[string][]byte{}
 	counter := 0
 	var inliners []*pkgInliner
-	defer func() { rep.Dead = deadHelpers(inliners) }()
+	defer func() {
+		// only helpers that were expanded somewhere can be dead; a new function nobody calls (new API) stays analysed
+		rep.Dead = map[string]bool{}
+		for k := range deadHelpers(inliners) {
+			if rep.Inlined[k] > 0 {
+				rep.Dead[k] = true
+			}
+		}
+	}()
 	for _, p := range roots {
 		if !strings.HasPrefix(p.PkgPath, libPath) || p.TypesInfo == nil {
 			continue
